@@ -1372,9 +1372,10 @@ def _music_objects(x, path, out, stack):
     from mingus.containers.note_container import NoteContainer as _NC
     from mingus.containers.bar import Bar as _B
     from mingus.containers.track import Track as _T
+    from mingus.core.keys import Key as _K
     if id(x) in stack:
         return
-    if isinstance(x, (_N, _NC, _B, _T)):
+    if isinstance(x, (_N, _NC, _B, _T, _K)):
         out.setdefault(id(x), (x, []))[1].append(path)
         if len(out[id(x)][1]) > 1:
             return
@@ -1431,6 +1432,10 @@ def _builders():
         "StringTuning.find_chord_fingering(E, return_best_as_NoteContainer=True)":
             lambda: A.tuning6().find_chord_fingering(_NC().from_chord("E"), return_best_as_NoteContainer=True),
         "Bar.place_notes(['C', 'E'], 4) x 4": bar_of_lists,
+        # (a Bar's `key` is not walked inside tracks: a bar opened by Track.add_notes takes over the Key object of the bar
+        # before it; the Key of a Bar built from a key *name* is that bar's own)
+        "Bar('Eb', (4, 4)).key": lambda: [_B("Eb", (4, 4)).key],
+        "[Bar('a', (3, 4)).key, Bar('a', (4, 4)).key]": lambda: [_B("a", (3, 4)).key, _B("a", (4, 4)).key],
         "fft.find_notes(table)": lambda: _fft.find_notes([(440.0, 10.0), (660.0, 5.0), (880.0, 1.0)]),
         "MIDI_to_Composition(file of a from_chords track)": midi_roundtrip,
     }
